@@ -2,6 +2,9 @@ SPECIFICATION Spec
 CONSTANTS Spellings <- SpellingsAll
           Probes <- ProbesSmall
           Unkeyed <- NoFns
+          CliOpts <- NoCli
+          CliEnvs <- NoCli
+          EnvOverridesOption <- Off
           MaxDepth = 3
 INVARIANT EmitGen
 CHECK_DEADLOCK FALSE
